@@ -426,8 +426,10 @@ def run(prop, tier, seed, replay=None):
         per_layer[c["layer"]] = per_layer.get(c["layer"], 0) + 1
         nacts += len(r.get("acts", []))
         distinct.add(json.dumps([c["layer"], {k: c["x"].get(k) for k in DIMS + ["moved", "secret", "via", "note"]}, c["vec"].get("url")], sort_keys=True))
-        for a in r.get("acts", []):
-            distinct.add(json.dumps([c["layer"], c["x"]["strict"], c["x"].get("dummy"), a["kind"], a["arg"], a["entry"], a["url"] if a["kind"] == "outbound" else ""], sort_keys=True))
+        for n, a in enumerate(r.get("acts", [])):
+            # the URL as written in the class tables (the driver adds a per-action marker that must not count as a distinct case)
+            orig = c["acts"][n]["url"] if n < len(c["acts"]) and a["kind"] == "outbound" else ""
+            distinct.add(json.dumps([c["layer"], c["x"]["strict"], c["x"].get("dummy"), a["kind"], a["arg"], a["entry"], orig], sort_keys=True))
         if c["layer"] == "system":
             if c["x"]["strict"] and r["accepted"]:
                 accepted_strict += 1
